@@ -181,7 +181,7 @@ func main() {
 		must(perr)
 		var names []string
 		for _, nme := range file.Order {
-			if strings.HasPrefix(nme, "C_") {
+			if strings.HasPrefix(nme, "C_") || strings.HasPrefix(nme, "E_") {
 				names = append(names, nme)
 			}
 		}
@@ -323,6 +323,10 @@ func main() {
 			os.Exit(3)
 		}
 		if !ok2 {
+			if _, defined := file.Defs[p.Name]; !defined && strings.HasPrefix(p.Name, "E_") {
+				acc.Add("edge_programs_rejected", 1) // edge of the subset: a conversion error is an acceptable answer
+				continue
+			}
 			if _, defined := file.Defs[p.Name]; !defined {
 				viol("rejected", "goose does not translate this program of the supported concurrent subset: "+firstErrFor(gerr.String()))
 				continue
@@ -392,7 +396,7 @@ func main() {
 	}
 	os.Exit(acc.Done(ev.Finish{
 		Prop: "C03", Tier: *tier, Level: "model_checking", Start: start,
-		Rule:        fmt.Sprintf("programs = lock style {local, through a struct field, var-declared} x join style {WaitGroup, cond+Signal, cond+Broadcast, flag+WaitTimeout, all waits in a loop} x locked steps of 1-2 goroutines and main over a shared captured local and a struct field (add, double, copy to field, conditional set), plus goroutines spawned from a loop and under an if; data-race-free by construction (GooseLang side runs with a happens-before race detector). Each program: the Go program (sync -> scheduler shim, go -> controlled spawn) explored over every schedule with <= %d preemptions, goose's output explored on the reference interpreter over every schedule with <= %d preemptions; oracle: Out_Go is a subset of Out_GL; if Go's result is schedule-independent every GooseLang interleaving yields it, with no deadlock, stuck thread or data race", bound, bound+1),
+		Rule:        fmt.Sprintf("five edge programs (go f(args), go o.m(args), go func(v T){...}(x) with a shadowing / late-read parameter, in a loop): rejected, or arguments evaluated by the spawner and no binder leaking; programs = lock style {local, through a struct field, var-declared} x join style {WaitGroup, cond+Signal, cond+Broadcast, flag+WaitTimeout, all waits in a loop} x locked steps of 1-2 goroutines and main over a shared captured local and a struct field (add, double, copy to field, conditional set), plus goroutines spawned from a loop and under an if; data-race-free by construction (GooseLang side runs with a happens-before race detector). Each program: the Go program (sync -> scheduler shim, go -> controlled spawn) explored over every schedule with <= %d preemptions, goose's output explored on the reference interpreter over every schedule with <= %d preemptions; oracle: Out_Go is a subset of Out_GL; if Go's result is schedule-independent every GooseLang interleaving yields it, with no deadlock, stuck thread or data race", bound, bound+1),
 		Assumptions: []string{"GooseLang condWait / waitgroup.Wait are modelled without stuttering re-acquisitions (a waiter resumes only after another thread released the lock / the counter reached zero)", "timing primitives are logical (Sleep is a scheduling point, a timed wait may time out whenever the lock has been released in between)", "preemption bound"},
 		Extra: map[string]any{
 			"states":                        acc.Counters["executions"],
